@@ -182,7 +182,7 @@ def main():
     if not a.no_build:
         with lean.Locked():
             subprocess_run_gen_all()
-            terrs = lean.regen(REPO)
+            terrs = lean.regen(REPO, prop)
             broken += [f'translation: {e}' for e in terrs]
             ok, log = lean.build(targets + ['SFModel.Drv.All'])
             if not ok:
